@@ -54,11 +54,15 @@ def _effective(eng, w, L, is_date):
     return int(w)
 
 
-def slice_props(eng, L=4, window="sym", date=True, nrows=2, subtotal=True, with_values=True, none_at=()):
+def slice_props(eng, L=4, window="sym", date=True, nrows=2, subtotal=True, with_values=True, none_at=(), wave_rows=False):
     w = _window(eng, window)
     ins = [C.subtotal("S", [1, 2])] if subtotal else []
+    if wave_rows:
+        # the rows are waves too, with a multi-term wave difference (its column proportions are undefined) and a 1-1 difference
+        ins = [{"anchor": "bottom", "function": "subtotal", "name": "(2+3)-1", "kwargs": {"positive": [2, 3], "negative": [1]}},
+               {"anchor": "top", "function": "subtotal", "name": "3-1", "kwargs": {"positive": [3], "negative": [1]}}]
     vals = [None if k in none_at else eng.real("v%d" % k) for k in range(nrows)] if with_values else None
-    rows = Vn("a", nrows, (1,), vals, insertions=ins) if with_values else ("cat", "a", nrows, {"missing_at": (1,), "insertions": ins})
+    rows = Vn("a", nrows, (1,), vals, insertions=ins) if with_values else ("catdate" if wave_rows else "cat", "a", nrows, {"missing_at": (1,), "insertions": ins})
     cols = ("catdate" if date else "cat", "d", L, {"missing_at": (L,)})
     cw = CellWorld(eng, [rows, cols])
     tr = {"columns_dimension": {"smoother": {"function": "one_sided_moving_avg", "window": w}}}
@@ -135,6 +139,7 @@ def specs(tier):
     L = 4 if tier == "quick" else 6
     add("slice proportions/index/scale mean, symbolic window", "slice_props", dict(L=L))
     add("slice scale mean with a value-less category, symbolic window", "slice_props", dict(L=L, nrows=3, subtotal=False, none_at=[1]))
+    add("slice proportions, rows are waves with wave differences, window 2", "slice_props", dict(L=L, window=2, nrows=3, with_values=False, wave_rows=True))
     add("slice proportions, window None", "slice_props", dict(L=L, window=None, with_values=False))
     add("slice proportions, not a date dimension", "slice_props", dict(L=L, date=False, with_values=False, window=2))
     add("slice means, symbolic window, NaN cells", "slice_means", dict(L=L, unavailable=[[0, 1], [1, L - 1]]))
